@@ -292,9 +292,12 @@ unit_G(uint64_t idx)
 	++*c_states;
 	if (idx < g_nenum) {
 		flen = idx2str(idx, SF, fmt);
-	} else {
+	} else if (idx < g_nenum + NNAMED) {
 		strcpy(fmt, named_fmt[idx - g_nenum]);
 		flen = strlen(fmt);
+	} else {
+		/* a byte >= 0x80 among the first four */
+		flen = xh_format(idx - g_nenum - NNAMED, fmt);
 	}
 	xe_hex(fmt, flen, fh, sizeof(fh));
 	xe_esc(fmt, flen, fe, sizeof(fe));
@@ -340,14 +343,14 @@ unit_G(uint64_t idx)
 		if (rc) {
 			snprintf(key, sizeof(key), "build_needle: %s", sig_where(sw, sizeof(sw)));
 			report(key, (double)flen, cas, NULL, "build_needle(16 atoms, {\"%s\"}): %s", fe, sw);
-			return 1;
+			return xg_must_restart();
 		}
 		for (int i = 0; i < xr.n; i++) {
 			snprintf(key, sizeof(key), "build_needle: %s in %s, specifier %s", xr.r[i].kind, xr.r[i].site, xr.r[i].tok[0] ? xr.r[i].tok : "-");
 			report(key, (double)flen, cas, NULL, "build_needle(16 atoms, {\"%s\"}): %s, distance %ld (in %s)", fe, xr.r[i].kind, xr_dist, xr.r[i].site);
 		}
 	} else if (rc) {
-		return 1;
+		return xg_must_restart();
 	}
 	if (soa.needle == NULL) {
 		return 0;
@@ -907,7 +910,7 @@ main(int argc, char *argv[])
 	}
 
 	xb_init();
-	ex_meta("rule", "byte strings in canonical order. G: string over {%% Y d b O _ t h s - a Z} (+%d calendar names) as format: calc_grep_atom, build_needle into 16 atoms, "
+	ex_meta("rule", "byte strings in canonical order. G: string over {%% Y d b O _ t h s - a Z} (+%d calendar names, + every such string of length <= 2 (thorough 3) with 0x80, 0xc3, 0xff or UTF-8 e-acute inserted at every position 0..3) as format: calc_grep_atom, build_needle into 16 atoms, "
 		"dt_io_find_strpdt2 over the formatter's own text for it (bare, embedded, every truncation) + %d fixed lines. L: string over {2 0 1 - : T W b SPC @ + 0x01} as line x %d "
 		"format sets (none/standard needles, one per needle class, a 3-format set): dt_io_find_strpdt2 and dt_io_strpdt. U: string over {\\ a n t v x e z A %% 0x01 0x7f}: "
 		"dt_io_unescape in place. M: duration lists of every length 0..%d over {1d 2b 1w 1mo 1y 3h 4m 5s 6rs} and the co-class forms {/1h /15m /30s /1d} (one unit throughout, "
@@ -925,7 +928,7 @@ main(int argc, char *argv[])
 			g_mode = plan[k].mode;
 			g_maxlen = g_mode == 'G' ? lenG : g_mode == 'L' ? lenL : g_mode == 'U' ? lenU : lenR;
 			g_nenum = nstrings(g_maxlen);
-			total = g_mode == 'M' ? (uint64_t)XD_MAXN(ex.thorough) + 1U : g_nenum + (g_mode == 'G' ? NNAMED : 0);
+			total = g_mode == 'M' ? (uint64_t)XD_MAXN(ex.thorough) + 1U : g_nenum + (g_mode == 'G' ? NNAMED + xh_count(ex.thorough ? 3 : 2) : 0);
 			for (uint64_t lo = 0; lo < total && !ex.expired; lo += (uint64_t)plan[k].batch, slice++) {
 				uint64_t hi = lo + (uint64_t)plan[k].batch < total ? lo + (uint64_t)plan[k].batch : total;
 				if (!ex_mine(slice)) {
